@@ -50,7 +50,21 @@ CHECKS = {
 
 NOT_YET = "check not built yet in this revision (work in progress; see DESIGN.md section 10)"
 
+def findings_txt():
+    """A plain-text rendering of known_findings.json (which the checks read), one line per entry."""
+    d = json.load(open("/verif/known_findings.json"))
+    lines = ["# generated by mkmanifest.py from known_findings.json; the checks read the JSON file and never write either"]
+    for e in d:
+        if e.get("fixed"):
+            w = e["what"]
+            lines.append(w if w.startswith("fixed:") else "fixed: property=%s %s %s" % (e["property"], e.get("commit", ""), w))
+        else:
+            lines.append("KNOWN-FINDING: property=%s %s [id=%s class=%s where=%s]" % (e["property"], e["what"], e["id"], e["class"], json.dumps(e.get("where", {}), sort_keys=True)))
+    open("/verif/known_findings.txt", "w").write("\n".join(lines) + "\n")
+
+
 def main():
+    findings_txt()
     props = [json.loads(l)["id"] for l in open("/verif/properties.jsonl")]
     checks = []
     for pid in props:
@@ -86,7 +100,7 @@ def main():
         ],
         "checks": checks,
         "not_applicable": [{"property_id": p, "reason": NOT_YET} for p in props if p not in CHECKS],
-        "notes": "exit 0 held / 1 VIOLATION / 2 harness error; known findings and fixed defects are listed in /verif/known_findings.json",
+        "notes": "exit 0 held / 1 VIOLATION / 2 harness error; known findings and fixed defects are listed in /verif/known_findings.json (read by the checks, never written at run time) and, one line per entry, in /verif/known_findings.txt",
     }
     json.dump(m, open("/verif/MANIFEST.json", "w"), indent=1)
     print("checks:", len(checks), "not_applicable:", len(m["not_applicable"]))
